@@ -12,20 +12,37 @@ fn hexb(b: &[u8]) -> String {
 }
 
 /// `pmh_harness child-sig vecu16|vecu32 n1 n2 …` : prints the bytes, then re-checks the argument is intact
+/// the same VALUE with different allocation histories: exact capacity, spare capacity (never written), or
+/// truncated from a longer vector (stale elements behind the end) — a faithful byte identity sees no difference
+fn shaped<T: Copy>(kind: &str, exact: Vec<T>, filler: T) -> Vec<T> {
+    if kind.ends_with("cap") {
+        let mut v = Vec::with_capacity(2 * exact.len() + 7);
+        v.extend_from_slice(&exact);
+        v
+    } else if kind.ends_with("trunc") {
+        let mut v = exact.clone();
+        for _ in 0..(exact.len() / 2 + 3) { v.push(filler); }
+        v.truncate(exact.len());
+        v
+    } else {
+        exact
+    }
+}
+
 pub fn child(args: &[String]) {
     let kind = args[0].as_str();
     let nums: Vec<u64> = args[1..].iter().map(|s| s.parse().unwrap()).collect();
     match kind {
-        "vecu16" => {
-            let v: Vec<u16> = nums.iter().map(|x| *x as u16).collect();
+        "vecu16" | "vecu16cap" | "vecu16trunc" => {
+            let v: Vec<u16> = shaped(kind, nums.iter().map(|x| *x as u16).collect(), 0xABCD);
             let s = v.get_sig();
             println!("{}", hexb(&s));
             drop(s);
             let w: Vec<u64> = v.iter().map(|x| *x as u64).collect();
             assert_eq!(w, nums);
         }
-        "vecu32" => {
-            let v: Vec<u32> = nums.iter().map(|x| *x as u32).collect();
+        "vecu32" | "vecu32cap" | "vecu32trunc" => {
+            let v: Vec<u32> = shaped(kind, nums.iter().map(|x| *x as u32).collect(), 0xABCD_EF01);
             let s = v.get_sig();
             println!("{}", hexb(&s));
             drop(s);
@@ -132,19 +149,26 @@ pub fn corr(ctx: &mut Ctx) {
         ctx.count("vector cases");
         let s8: Vec<u64> = v8.iter().map(|x| *x as u64).collect();
         ctx.line(&format!("sig vecu8 {}", join(&s8)), &hexb(&v8.get_sig()));
+        ctx.line(&format!("sig vecu8 {}", join(&s8)), &hexb(&shaped("cap", v8.clone(), 0xEEu8).get_sig()));
+        ctx.line(&format!("sig vecu8 {}", join(&s8)), &hexb(&shaped("trunc", v8.clone(), 0xEEu8).get_sig()));
         let v16: Vec<u64> = (0..*n).map(|j| if i % 2 == 0 { ctx.rng.next() & 0xffff } else { (j as u64 * 257 + 1) & 0xffff }).collect();
-        let got = run_child("vecu16", &v16);
-        ctx.line(&format!("sig vecu16 {}", join(&v16)), &got);
         let want: Vec<u8> = v16.iter().flat_map(|x| (*x as u16).to_ne_bytes()).collect();
-        if got != hexb(&want) {
-            ctx.oracle_failure(serde_json::json!({"kind":"impl_violates_property","key":format!("vecu16:n={}",n),"what":"Vec<u16>::get_sig: wrong bytes or memory error (child process)","n":n,"got":got.chars().take(80).collect::<String>(),"want":hexb(&want).chars().take(80).collect::<String>()}));
+        for shape in ["vecu16", "vecu16cap", "vecu16trunc"] {
+            let got = run_child(shape, &v16);
+            ctx.count(&format!("vector allocation history={}", &shape[6..]));
+            ctx.line(&format!("sig vecu16 {}", join(&v16)), &got);
+            if got != hexb(&want) {
+                ctx.oracle_failure(serde_json::json!({"kind":"impl_violates_property","key":format!("{}:n={}",shape,n),"what":"Vec<u16>::get_sig: wrong bytes or memory error (child process)","allocation":shape,"n":n,"got":got.chars().take(80).collect::<String>(),"want":hexb(&want).chars().take(80).collect::<String>()}));
+            }
         }
         let v32: Vec<u64> = (0..*n).map(|_| ctx.rng.next() & 0xffff_ffff).collect();
-        let got = run_child("vecu32", &v32);
-        ctx.line(&format!("sig vecu32 {}", join(&v32)), &got);
         let want: Vec<u8> = v32.iter().flat_map(|x| (*x as u32).to_ne_bytes()).collect();
-        if got != hexb(&want) {
-            ctx.oracle_failure(serde_json::json!({"kind":"impl_violates_property","key":format!("vecu32:n={}",n),"what":"Vec<u32>::get_sig: wrong bytes or memory error (child process)","n":n,"got":got.chars().take(80).collect::<String>(),"want":hexb(&want).chars().take(80).collect::<String>()}));
+        for shape in ["vecu32", "vecu32cap", "vecu32trunc"] {
+            let got = run_child(shape, &v32);
+            ctx.line(&format!("sig vecu32 {}", join(&v32)), &got);
+            if got != hexb(&want) {
+                ctx.oracle_failure(serde_json::json!({"kind":"impl_violates_property","key":format!("{}:n={}",shape,n),"what":"Vec<u32>::get_sig: wrong bytes or memory error (child process)","allocation":shape,"n":n,"got":got.chars().take(80).collect::<String>(),"want":hexb(&want).chars().take(80).collect::<String>()}));
+            }
         }
     }
     // call path through ProbMinHash3aSha
